@@ -194,10 +194,51 @@ def gen_op(c, rng, step):
            'set_inputs', 'order_inputs', 'order_outputs', 'replace_inputs', 'connect_right', 'connect_circuit_right',
            'connect_left', 'connect_circuit_left', 'connect_inputs', 'extend_circuit', 'add_circuit',
            'replace_subcircuit', 'make_block', 'make_block_from_slice', 'delete_block', 'remove_block', 'into_bench',
-           'copy', 'reparse', 'block_into_circuit', 'bare']
-    weights = [5, 6, 2, 5, 6, 2, 3, 2, 2, 2, 3, 5, 7, 4, 4, 3, 4, 3, 6, 4, 4, 2, 3, 5, 4, 2, 3, 1]
+           'copy', 'reparse', 'block_into_circuit', 'bare', 'live_args']
+    weights = [5, 6, 2, 5, 6, 2, 3, 2, 2, 2, 3, 5, 7, 4, 4, 3, 4, 3, 6, 4, 4, 2, 3, 5, 4, 2, 3, 1, 5]
     op = rng.choices(ops, weights)[0]
     invalid = rng.random() < 0.12
+
+    if op == 'live_args':
+        # what the accessors return (the circuit's own live lists) handed straight back to a mutator
+        which = rng.choice(['set_inputs', 'set_outputs', 'order_inputs', 'order_outputs', 'replace_inputs_true',
+                            'replace_inputs_false', 'make_block_outputs', 'make_block_users', 'connect_left_outputs',
+                            'mark_each_output', 'add_inputs_inputs'])
+        nm = _fresh(c, rng, 'lb')
+        other = _small_other(rng, 'lv%d' % step)
+
+        def thunk(c, which=which):
+            if which == 'set_inputs':
+                return c.set_inputs(c.inputs)
+            if which == 'set_outputs':
+                return c.set_outputs(c.outputs)
+            if which == 'order_inputs':
+                return c.order_inputs(c.inputs)
+            if which == 'order_outputs':
+                return c.order_outputs(c.outputs)
+            if which == 'replace_inputs_true':
+                return c.replace_inputs(c.inputs, [])
+            if which == 'replace_inputs_false':
+                return c.replace_inputs([], c.inputs)
+            if which == 'make_block_outputs':
+                return c.make_block(nm, c.outputs, c.outputs)
+            if which == 'make_block_users':
+                l0 = next((l for l in c.gates if c.get_gate_users(l)), None)
+                if l0 is None:
+                    return c
+                us = c.get_gate_users(l0)
+                return c.make_block(nm, us, us)
+            if which == 'connect_left_outputs':
+                return c.connect_circuit(other, c.outputs, other.inputs[:len(c.outputs)] if len(other.inputs) >= len(c.outputs) else other.inputs)
+            if which == 'mark_each_output':
+                for l in c.outputs[:3]:
+                    c.mark_as_output(l)
+                return c
+            return c.add_inputs(c.inputs)
+        return which if which in ('set_inputs', 'set_outputs', 'order_inputs', 'order_outputs') else {
+            'replace_inputs_true': 'replace_inputs', 'replace_inputs_false': 'replace_inputs', 'make_block_outputs': 'make_block',
+            'make_block_users': 'make_block', 'connect_left_outputs': 'connect_circuit', 'mark_each_output': 'mark_as_output',
+            'add_inputs_inputs': 'add_inputs'}[which], thunk, ['live_args', which], which.startswith(('replace', 'connect'))
 
     if op in ('add_gate', 'emplace_gate'):
         t = rng.choice(netgen.ALL_GATE_TYPES)
